@@ -7,7 +7,7 @@ package ip
 // C02: a target is accepted only as an IPv4 network (4-byte address, 4-byte canonical mask); every text that
 // contains a colon (every IPv6 form, including IPv4-mapped ones) is refused with ErrInvalidAddr; never a panic.
 //@ func ParseIPNet
-//@   props C02 C18 C01
+//@   props C02 C18 C01 C03 C13
 //@   modifies nothing
 //@   ensures ipv4only: ret1 == nil ==> ret0 != nil && len(ret0.IP) == 4 && len(ret0.Mask) == 4 && canonical(content(ret0.Mask))
 //@   ensures refuse6:  strcontains(subnet, ":") ==> ret0 == nil && ret1 == ErrInvalidAddr
@@ -65,7 +65,7 @@ package ip
 // default gateway of an interface (C11): among the default routes (no Dst, no Src) through THIS link, the gateway of
 // the first one with the strictly lowest metric; other routes change nothing
 //@ func GetDefaultGatewayIP
-//@   props C11
+//@   props C11 C17
 //@   observe netlink.RouteList
 //@   entry row nolist: [call netlink.RouteList(_, _) as (rs, e)] when e != nil && ret1 == e -> exit
 //@   entry row list:   [call netlink.RouteList(_, _) as (rs, e)] when e == nil -> loop 0
